@@ -36,7 +36,7 @@ import (
 	"time"
 )
 
-var c13bImporters = []string{"revolut2", "revolut", "wise"}
+var c13bImporters = []string{"revolut2", "revolut", "wise", "swissquote"}
 
 var c13bUse = map[string]string{"revolut2": "revolut2", "revolut": "revolut", "wise": "com.wise",
 	"swissquote": "ch.swissquote", "interactivebrokers": "us.interactivebrokers"}
@@ -955,10 +955,206 @@ func c13bGenWise(r *rng, mal string) c13bCase {
 	return c
 }
 
+// ---------------------------------------------------------------- swissquote
+
+func c13bGenSwissquote(r *rng, mal string) c13bCase {
+	c := c13bCase{imp: "swissquote", flags: map[string]string{
+		"acct":    pick(r, []string{"Assets:Swissquote", "Assets:Broker:Swissquote", "Assets:SQ"}),
+		"div":     pick(r, []string{"Income:Dividends", "Income:D"}),
+		"int":     pick(r, []string{"Income:Interest", "Income:I"}),
+		"tax":     pick(r, []string{"Expenses:Tax", "Expenses:Taxes:Withholding"}),
+		"fee":     pick(r, []string{"Expenses:Fees", "Expenses:Broker:Fees"}),
+		"trading": pick(r, []string{"Expenses:Trading", "Equity:Trading", "Income:Trading"})}}
+	n := c13aRowCount(r)
+	if mal != "" && n == 0 {
+		n = 3
+	}
+	quotesOK := r.chance(15)
+	c.quotes = quotesOK
+	curs := []string{"CHF", "CHF", "USD", "EUR"}
+	syms := [][3]string{{"VWRL", "Vanguard All World ETF Dist", "IE00B3RBWM25"}, {"CSSPX", "iShares Core S&P 500", "IE00B5BMR087"},
+		{"ABBN", "ABB Ltd; N", "CH0012221716"}, {"NESN", "Nestlé SA", "CH0038863350"}, {"X1", "", ""}, {"ROG", "Roche \"GS\"", "CH0012032048"}}
+	dts := c13aNewDates(r)
+	type line struct {
+		rows  [][]string
+		facts []c13bFact
+	}
+	amt2 := func(q *big.Rat) string { // as the export writes amounts: two places, ' separators now and then
+		t := q.FloatString(2)
+		neg := strings.HasPrefix(t, "-")
+		t = strings.TrimPrefix(t, "-")
+		if i := strings.Index(t, "."); i > 3 && r.chance(70) {
+			t = t[:i-3] + "'" + t[i-3:]
+		}
+		if neg {
+			t = "-" + t
+		}
+		return t
+	}
+	saldo := func() string { return amt2(big.NewRat(int64(r.intn(2000000)-300000), 100)) }
+	lines := make([]line, n)
+	for i := range lines {
+		t := dts.next()
+		day := c13aISO(t)
+		stamp := t.Format("02-01-2006") + fmt.Sprintf(" %02d:%02d:%02d", r.intn(24), r.intn(60), r.intn(60))
+		if r.chance(10) {
+			stamp = t.Format("02-01-2006")
+		}
+		cur := pick(r, curs)
+		sym := pick(r, syms)
+		if !quotesOK && strings.Contains(sym[1], "\"") {
+			sym = syms[0]
+		}
+		name := sym[1]
+		if r.chance(20) {
+			name = c13aText(r, false, quotesOK)
+		}
+		order := fmt.Sprintf("%08d", r.intn(100000000))
+		var l line
+		fact := func(terms ...c13bTerm) { l.facts = append(l.facts, c13bFact{day, terms}) }
+		row := func(typ, symbol, nm, isin, anzahl, preis, kosten, netto, wcur string) {
+			l.rows = append(l.rows, []string{stamp, order, typ, symbol, nm, isin, anzahl, preis, kosten, "0.00", netto, saldo(), wcur})
+		}
+		switch k := r.intn(14); {
+		case k <= 3: // Kauf / Verkauf
+			qty := big.NewRat(int64(1+r.intn(400)), 1)
+			qtyText := qty.FloatString(1)
+			if r.chance(20) {
+				qty = big.NewRat(int64(1+r.intn(4000)), 1000)
+				qtyText = qty.FloatString(3)
+			}
+			price := big.NewRat(int64(1+r.intn(500000)), 100)
+			fee := big.NewRat(int64(r.intn(5000)), 100)
+			gross := new(big.Rat).Mul(qty, price)
+			gross, _ = new(big.Rat).SetString(gross.FloatString(2))
+			if k <= 1 {
+				net := new(big.Rat).Neg(new(big.Rat).Add(gross, fee))
+				row("Kauf", sym[0], name, sym[2], qtyText, amt2(price), amt2(fee), amt2(net), cur)
+				fact(c13bTerm{sym[0], qty.FloatString(3)}, c13bTerm{cur, net.FloatString(2)})
+			} else {
+				net := new(big.Rat).Sub(gross, fee)
+				row("Verkauf", sym[0], name, sym[2], qtyText, amt2(price), amt2(fee), amt2(net), cur)
+				if new(big.Rat).Add(net, fee).Sign() > 0 {
+					fact(c13bTerm{sym[0], "-" + qty.FloatString(3)}, c13bTerm{cur, net.FloatString(2)})
+				} else { // a sale without proceeds: the importer keeps the sign of Anzahl
+					fact(c13bTerm{sym[0], qty.FloatString(3)}, c13bTerm{cur, net.FloatString(2)})
+				}
+			}
+		case k <= 5: // currency exchange: two rows
+			other := pick(r, curs)
+			for other == cur {
+				other = pick(r, curs)
+			}
+			a, b2 := big.NewRat(int64(1+r.intn(500000)), 100), big.NewRat(int64(1+r.intn(500000)), 100)
+			gut, bel := "Forex-Gutschrift", "Forex-Belastung"
+			if r.chance(25) {
+				gut, bel = "Fx-Gutschrift Comp.", "Fx-Belastung Comp."
+			}
+			order = "00000000"
+			if r.chance(50) {
+				row(gut, "", "", "", "1.0", amt2(a), "0.00", amt2(a), cur)
+				row(bel, "", "", "", "1.0", amt2(b2), "0.00", amt2(new(big.Rat).Neg(b2)), other)
+			} else {
+				row(bel, "", "", "", "1.0", amt2(b2), "0.00", amt2(new(big.Rat).Neg(b2)), other)
+				row(gut, "", "", "", "1.0", amt2(a), "0.00", amt2(a), cur)
+			}
+			fact(c13bTerm{cur, a.FloatString(2)}, c13bTerm{other, "-" + b2.FloatString(2)})
+		case k <= 7: // dividend, with or without withholding tax
+			gross := big.NewRat(int64(1+r.intn(100000)), 100)
+			tax := new(big.Rat)
+			if r.chance(50) {
+				tax = big.NewRat(int64(1+r.intn(3000)), 100)
+			}
+			net := new(big.Rat).Sub(gross, tax)
+			row(pick(r, []string{"Dividende", "Dividende", "Capital Gain", "Kapitalrückzahlung"}), sym[0], name, sym[2], "1.0", amt2(gross), amt2(tax), amt2(net), cur)
+			fact(c13bTerm{cur, net.FloatString(2)})
+		case k == 8:
+			net := big.NewRat(-int64(1+r.intn(10000)), 100)
+			order = "00000000"
+			row("Depotgebühren", "", "", "", "1.0", amt2(new(big.Rat).Neg(net)), "3.25", amt2(net), cur)
+			fact(c13bTerm{cur, net.FloatString(2)})
+		case k <= 10:
+			net := big.NewRat(int64(1+r.intn(2000000)), 100)
+			typ := pick(r, []string{"Einzahlung", "Vergütung"})
+			if r.chance(40) {
+				net.Neg(net)
+				typ = pick(r, []string{"Auszahlung", "Belastung"})
+			}
+			order = "00000000"
+			row(typ, "", "", "", "1.0", amt2(new(big.Rat).Abs(net)), "0.00", amt2(net), cur)
+			fact(c13bTerm{cur, net.FloatString(2)})
+		case k == 11:
+			net := big.NewRat(int64(r.intn(2000))-500, 100)
+			order = "00000000"
+			row("Zins", "", "", "", "1.0", amt2(new(big.Rat).Abs(net)), "0.00", amt2(net), cur)
+			fact(c13bTerm{cur, net.FloatString(2)})
+		default: // anything else is booked against Expenses:TBD
+			net := big.NewRat(int64(r.intn(20000))-10000, 100)
+			order = "00000000"
+			row(pick(r, []string{"Spesen Steuerauszug", "Berichtigung Börsengeschäft", "Titeleingang", "Crypto Deposit", c13aText(r, false, quotesOK)}),
+				pick(r, []string{"", sym[0]}), "", "", "1.0", "0.00", "0.00", amt2(net), cur)
+			fact(c13bTerm{cur, net.FloatString(2)})
+		}
+		lines[i] = l
+	}
+	if r.chance(50) { // newest first, as Swissquote exports; the two rows of an exchange stay in their order
+		for i, j := 0, len(lines)-1; i < j; i, j = i+1, j-1 {
+			lines[i], lines[j] = lines[j], lines[i]
+		}
+	}
+	bad := -1
+	if mal != "" && mal != "acct" {
+		bad = r.intn(n)
+	}
+	var b strings.Builder
+	b.WriteString("Datum;Auftrag #;Transaktionen;Symbol;Name;ISIN;Anzahl;Stückpreis;Kosten;Aufgelaufene Zinsen;Nettobetrag;Saldo;Währung\n")
+	for i, l := range lines {
+		for k, fields := range l.rows {
+			if i == bad && k == 0 {
+				switch mal {
+				case "date":
+					fields[0] = pick(r, []string{"30-02-2020 10:00:00", "29-02-2021 00:00:00", "01-13-2020 10:00:00", "00-01-2020 10:00:00"})
+				case "datefmt":
+					fields[0] = pick(r, []string{"2020-01-02 10:00:00", "1-1-2020", "01.02.2020 10:00", "", "01/02/2020 10:00:00"})
+				case "amount":
+					fields[pick(r, []int{6, 7, 8, 9, 10, 11})] = pick(r, append(c13aBadAmounts, ""))
+				case "cur":
+					if r.chance(50) {
+						fields[12] = pick(r, c13aBadCurs)
+					} else {
+						fields[3] = pick(r, []string{"BRK.B", "A B", "X-Y"})
+					}
+				case "cols":
+					if r.chance(50) {
+						fields = fields[:12]
+					} else {
+						fields = append(fields, "extra")
+					}
+				}
+			}
+			for j, f := range fields {
+				if j > 0 {
+					b.WriteByte(';')
+				}
+				if (j == 2 || j == 4) && (strings.ContainsAny(f, ";\"") || strings.HasPrefix(f, " ")) {
+					b.WriteString("\"" + strings.ReplaceAll(f, "\"", "\"\"") + "\"")
+				} else {
+					b.WriteString(f)
+				}
+			}
+			b.WriteString(pick(r, []string{"\n", "\n", "\r\n"}))
+		}
+		c.facts = append(c.facts, l.facts...)
+	}
+	c.file = []byte(b.String())
+	return c
+}
+
 // ---------------------------------------------------------------- generator entry
 
 var c13bGenFuncs = map[string]func(r *rng, mal string) c13bCase{
 	"revolut2": c13bGenRevolut2, "revolut": c13bGenRevolut, "wise": c13bGenWise,
+	"swissquote": c13bGenSwissquote,
 }
 
 var c13bMalKinds = []string{"date", "datefmt", "amount", "cols", "cur", "acct"}
